@@ -1,6 +1,14 @@
-(* C09/Run.v -- entry point of the correspondence check. *)
+(* C09/Run.v -- entry point of the correspondence check.
+   Every escape sequence of a case comes from _ColorSequences.make applied to one of the case's formatter
+   arguments.  [run] therefore evaluates, beside the hand model, the functions TRANSLATED from the current
+   source (gen/C09_Translated.v through TransInst.tr_make) on every formatter argument of the case, text and
+   bytes: when they give what the hand model's [make] gives, the observation of the case is the same with
+   either; the line is then the model's observation, else (99 model (translated results)).  When the source
+   has left the translator's subset (translation_available = false, the proof step is already broken) the
+   hand model is compared alone. *)
 From Coq Require Import ZArith List Bool.
 From AK Require Export Common.Sx Common.Err C09.Model C09.Term C09.Seq.
+From AK Require Import Common.PyLib gen.C09_Translated C09.TransInst.
 Import ListNotations.
 Open Scope Z_scope.
 
@@ -58,7 +66,7 @@ Fixpoint build (items : list (option fmtargs * list Z)) : res (list chunk) :=
 Definition resolve (fmts : list fmtargs) (pc : option nat * list Z) : option fmtargs * list Z :=
   (option_map (fun k => nth k fmts no_args) (fst pc), snd pc).
 
-Definition run (c : case) : sx :=
+Definition run_model (c : case) : sx :=
   match c with
   | Fmt a text =>
       SL [ sx_res (fun ps => let s := chunk_str (fmt_call ps text) in
@@ -79,3 +87,40 @@ Definition run (c : case) : sx :=
                        (build (map (resolve fmts) pcs))
       end
   end.
+
+(* ---- the translated make next to the hand model's ---- *)
+Fixpoint zlist_eqb (a b : list Z) : bool :=
+  match a, b with
+  | [], [] => true
+  | x :: a', y :: b' => Z.eqb x y && zlist_eqb a' b'
+  | _, _ => false
+  end.
+
+Definition res_pair_eqb (a b : res (list Z * list Z)) : bool :=
+  match a, b with
+  | Ok (p, s), Ok (p', s') => zlist_eqb p p' && zlist_eqb s s'
+  | Err e, Err e' => err_eqb e e'
+  | _, _ => false
+  end.
+
+Definition makes_agree (a : fmtargs) : bool :=
+  res_pair_eqb (make a false) (tr_make a false) && res_pair_eqb (make a true) (tr_make a true).
+
+Definition fmts_of (c : case) : list fmtargs :=
+  match c with
+  | Fmt a _ => [a]
+  | Text items => flat_map (fun it => match fst it with Some a => [a] | None => [] end) items
+  | Strip _ => []
+  | SeqOps fmts _ _ _ => fmts
+  end.
+
+Definition sx_make (r : res (list Z * list Z)) : sx :=
+  sx_res (fun ps => SL [sx_str (fst ps); sx_str (snd ps)]) r.
+
+Definition run (c : case) : sx :=
+  let m := run_model c in
+  if translation_available then
+    if forallb makes_agree (fmts_of c) then m
+    else SL [SZ 99; m; sx_list (fun a => SL [sx_make (tr_make a false); sx_make (tr_make a true)])
+                              (filter (fun a => negb (makes_agree a)) (fmts_of c))]
+  else m.
